@@ -468,7 +468,10 @@ def step (s : St) (inj : Inj) (op : Op) : St :=
     | .ipcSend f h kinds =>
       match userEntry s f with
       | none => bad s
-      | some _ => ret (s.setH h (fun x => if x.st = .live then { x with inflight := x.inflight ++ [kinds] } else x)) true
+      | some _ =>
+        -- the harness sends over the peer of handle h's socketpair end: fails (EPIPE) once h closed its end
+        let ok := (s.liveH h).isSome && s.has (.handle h .io)
+        ret (if ok then s.setH h (fun x => { x with inflight := x.inflight ++ [kinds] }) else s) ok
     | .spawn ok cs =>
       if cs.any (fun c => match c with
           | some (.inl h) => ((s.liveH h).map (·.kind)) ≠ some .pipe
